@@ -670,11 +670,30 @@ func checkC06(c *Ctx, r *Report) {
 		// HEAD: a 304 to a client validator would be taken for the proxy's own revalidation). For every other method
 		// the conditionals are the client's business with the origin (If-Match on PUT is its lost-update guard) and
 		// must arrive (C08). Compared as a truth table over the method tests on the paths to processRequest.
-		ok := strip != nil && mk != nil && pr != nil
+		ok := strip != nil && pr != nil
 		detail := ""
 		if ok {
-			_, p := fieldPath(callArgs(strip)[1])
-			ok = len(p) == 1 && p[0] == "Header" && sameVal(mk.Call.Args[0], pr.Call.Args[2])
+			root, p := fieldPath(callArgs(strip)[1])
+			reqArg := argOf(pr, "req", 2)
+			ok = len(p) == 1 && p[0] == "Header" && reqArg != nil && sameVal(root, reqArg)
+			switch {
+			case !ok:
+			case mk != nil:
+				// the key is made here, from the request that is then processed
+				ok = sameVal(mk.Call.Args[0], reqArg)
+			default:
+				// the key is made by processRequest itself, from the request it is handed (after the strip, which precedes the call)
+				ok = false
+				if g := helperBody(pr); g != nil {
+					if mk2 := findCall(g, cachePkg+".MakeFromRequest"); mk2 != nil {
+						for i, q := range g.Params {
+							if resolveVal(mk2.Call.Args[0]) == ssa.Value(q) && i < len(pr.Call.Args) && sameVal(pr.Call.Args[i], reqArg) {
+								ok = true
+							}
+						}
+					}
+				}
+			}
 		}
 		if ok {
 			bs := &boolSummer{li: li}
